@@ -68,7 +68,11 @@ pub enum OpenMode {
 }
 
 pub enum ProtoCmd {
-    Open { peer: PeerId, mode: OpenMode, resp: oneshot::Sender<Result<f64, String>> },
+    /// `called` (optional) is answered as soon as `open_substream` returned, `resp` with the final
+    /// outcome; both carry the numeric substream id
+    Open { peer: PeerId, mode: OpenMode, called: Option<oneshot::Sender<Result<f64, String>>>, resp: oneshot::Sender<Result<f64, String>> },
+    /// drop one held outbound substream
+    DropOne { id: usize, resp: oneshot::Sender<bool> },
     ForceClose { peer: PeerId, resp: oneshot::Sender<Result<(), String>> },
     /// drop every substream this protocol holds (held outbound ones and inbound echo servers)
     DropHeld { resp: oneshot::Sender<usize> },
@@ -108,7 +112,7 @@ impl UserProtocol for Proto {
     async fn run(mut self: Box<Self>, mut service: TransportService) -> litep2p::Result<()> {
         let (node, q, obs, log) = (self.node.clone(), self.q.clone(), self.obs.clone(), self.log.clone());
         let mut pending: HashMap<SubstreamId, (OpenMode, Option<oneshot::Sender<Result<f64, String>>>)> = HashMap::new();
-        let mut held: Vec<Substream> = Vec::new();
+        let mut held: Vec<(usize, Substream)> = Vec::new();
         // inbound echo servers and outbound echo clients run inside this task so that leaving
         // `run` drops every substream of the protocol
         let mut jobs: FuturesUnordered<BoxFut> = FuturesUnordered::new();
@@ -148,8 +152,8 @@ impl UserProtocol for Proto {
                                 log.push(json!({"e": "sub_out", "o": obs, "n": node, "q": q, "id": id.verif_as_usize()}));
                                 match ent {
                                     Some((OpenMode::Hold, resp)) => {
-                                        held.push(substream);
-                                        if let Some(r) = resp { let _ = r.send(Ok(log.now_ms())); }
+                                        held.push((id.verif_as_usize(), substream));
+                                        if let Some(r) = resp { let _ = r.send(Ok(id.verif_as_usize() as f64)); }
                                     }
                                     Some((OpenMode::Echo, resp)) => {
                                         let mut s = substream;
@@ -158,7 +162,7 @@ impl UserProtocol for Proto {
                                             let r = async {
                                                 s.send_framed(Bytes::from_static(b"x")).await.map_err(|e| format!("send: {e:?}"))?;
                                                 match tokio::time::timeout(Duration::from_secs(8), s.next()).await {
-                                                    Ok(Some(Ok(_))) => Ok(lg.now_ms()),
+                                                    Ok(Some(Ok(_))) => Ok(id.verif_as_usize() as f64),
                                                     Ok(other) => Err(format!("echo: {other:?}")),
                                                     Err(_) => Err("echo timeout".to_string()),
                                                 }
@@ -188,17 +192,26 @@ impl UserProtocol for Proto {
                         return Ok(());
                     };
                     match cmd {
-                        ProtoCmd::Open { peer, mode, resp } => match service.open_substream(peer) {
+                        ProtoCmd::Open { peer, mode, called, resp } => match service.open_substream(peer) {
                             Ok(id) => {
+                                if let Some(c) = called { let _ = c.send(Ok(id.verif_as_usize() as f64)); }
                                 if mode == OpenMode::Fire {
                                     pending.insert(id, (mode, None));
-                                    let _ = resp.send(Ok(log.now_ms()));
+                                    let _ = resp.send(Ok(id.verif_as_usize() as f64));
                                 } else {
                                     pending.insert(id, (mode, Some(resp)));
                                 }
                             }
-                            Err(e) => { let _ = resp.send(Err(format!("open_substream: {e:?}"))); }
+                            Err(e) => {
+                                if let Some(c) = called { let _ = c.send(Err(format!("open_substream: {e:?}"))); }
+                                let _ = resp.send(Err(format!("open_substream: {e:?}")));
+                            }
                         },
+                        ProtoCmd::DropOne { id, resp } => {
+                            let n = held.len();
+                            held.retain(|(i, _)| *i != id);
+                            let _ = resp.send(held.len() < n);
+                        }
                         ProtoCmd::ForceClose { peer, resp } => {
                             let r = service.force_close(peer).map_err(|e| format!("{e:?}"));
                             let _ = resp.send(r);
@@ -352,12 +365,30 @@ impl Node {
     pub async fn open(&self, q: &str, peer: PeerId, mode: OpenMode, wait: Duration) -> Result<f64, String> {
         let (tx, rx) = oneshot::channel();
         let p = self.protos.get(q).ok_or("no such protocol")?;
-        p.send(ProtoCmd::Open { peer, mode, resp: tx }).await.map_err(|_| "protocol gone".to_string())?;
+        p.send(ProtoCmd::Open { peer, mode, called: None, resp: tx }).await.map_err(|_| "protocol gone".to_string())?;
         match tokio::time::timeout(wait, rx).await {
             Ok(Ok(r)) => r,
             Ok(Err(_)) => Err("protocol gone".into()),
             Err(_) => Err("no answer".into()),
         }
+    }
+
+    /// Two-phase open: returns (receiver for "the call returned", receiver for the final outcome).
+    pub async fn open2(&self, q: &str, peer: PeerId, mode: OpenMode) -> Option<(oneshot::Receiver<Result<f64, String>>, oneshot::Receiver<Result<f64, String>>)> {
+        let (ctx, crx) = oneshot::channel();
+        let (tx, rx) = oneshot::channel();
+        let p = self.protos.get(q)?;
+        p.send(ProtoCmd::Open { peer, mode, called: Some(ctx), resp: tx }).await.ok()?;
+        Some((crx, rx))
+    }
+
+    pub async fn drop_one(&self, q: &str, id: usize) -> bool {
+        let (tx, rx) = oneshot::channel();
+        let Some(p) = self.protos.get(q) else { return false };
+        if p.send(ProtoCmd::DropOne { id, resp: tx }).await.is_err() {
+            return false;
+        }
+        rx.await.unwrap_or(false)
     }
 
     pub async fn force_close(&self, q: &str, peer: PeerId) -> Result<(), String> {
